@@ -32,6 +32,8 @@ def predicate(name, r):
     trace = r.get("trace") or []
     ks = edit_kinds(trace)
     ops = step_ops(trace)
+    if name == "wrong_credential_kind":
+        return bool((cfg.get("extra") or {}).get("wrong_kind"))
     if name == "gc_enabled":
         return not (cfg.get("client_disable_gc") and cfg.get("server_disable_gc"))
     if name == "client_gc_enabled":
@@ -137,6 +139,10 @@ def counterfactual_config(kind, cfg):
     if kind == "gc_off":
         cfg["client_disable_gc"] = True
         cfg["server_disable_gc"] = True
+        return cfg
+    if kind == "right_credential_kind":
+        cfg["extra"] = dict(cfg.get("extra") or {})
+        cfg["extra"]["wrong_kind"] = 0
         return cfg
     if kind in ("no_dbfault", "uniform_presence_flag", "reattach_as_new_client", "no_undo_redo", "split_updates"):
         return cfg
